@@ -281,6 +281,9 @@ def check_c06(ctx):
     viols, cov = _steps_check(ctx, "C06", "mix", cfgs, sn, tn, hn, 1, dense_n=dense_n)
     cov["planner_entries_scanned"] = scanned
     cov["guided_configurations"] = min(len(suspects), 8)
+    from . import design, classprops
+    cov["design_level_generator_model"] = design.gen_mixed(ctx)
+    cov["conformance_drift"] = classprops.gen_drift_mixed(ctx, 20 if q else 40)    # diagnostic, never a violation
     # "this number does not depend on the chosen storage"
     return viols, cov, ["beyond the exhaustively searched box the recurrence of Maddison (2024) is "
                         "assumed: the check there is 'implementation = recurrence'"]
